@@ -176,6 +176,7 @@ RESIDUALS = {
     "perf": (("u_left", "u_right", "f_left", "f_right"), lambda ul, ur, fl, fr, c: ul - ur * c[0] - fl + fr * c[1]),
     "per2": (("u_left", "u_right", "t"), lambda ul, ur, t, c: ul - ur * c[0] - c[1] * t),
     "per2f": (("u_left", "u_right", "t", "f_left", "f_right"), lambda ul, ur, t, fl, fr, c: ul - ur - fl * c[0] + fr + t * c[1]),
+    "lin2": (("u", "x", "t"), lambda u, x, t, c: u - c[0] * x - c[1] * t),
     "per": (("u_left", "u_right", "x_right"), lambda ul, ur, xr, c: ul - ur * c[0] - c[1] * xr),
     "perD": (("u_left", "u_right", "D"), lambda ul, ur, D, c: ul * D - ur - c[1]),
 }
@@ -257,20 +258,27 @@ def build(case):
     class Poly2(tp.models.Model):
         """u(x, t) = a0 + a1 x + a2 t + a3 x t"""
 
-        def __init__(self, init):
-            super().__init__(X * T, U)
+        def __init__(self, init, order="xt"):
+            super().__init__(X * T if order == "xt" else T * X, U)     # declared order of the input variables
+            self.order = order
             self.coef = torch.nn.Parameter(torch.tensor([float(Fraction(a)) for a in init], dtype=dt))
 
         def forward(self, points):
-            points = self._fix_points_order(points)
+            points = self._fix_points_order(points)                    # points may arrive in the other order
             z = points.as_tensor.to(self.coef.dtype)
-            x, t = z[..., :1], z[..., 1:2]
+            x, t = (z[..., :1], z[..., 1:2]) if self.order == "xt" else (z[..., 1:2], z[..., :1])
             return tp.spaces.Points(self.coef[0] + self.coef[1] * x + self.coef[2] * t + self.coef[3] * x * t, U)
 
     B.models, B.model_syms = [], []
     for mi, m in enumerate(case["models"]):
-        if m["kind"] == "poly2":
-            mod = Poly2(m["init"])
+        if m["kind"] == "fcn2":
+            torch.manual_seed(m["seed"])
+            mod = tp.models.FCN(X * T if m.get("order", "xt") == "xt" else T * X, U, hidden=tuple(m["hidden"]))
+            for pn, p in mod.named_parameters():
+                reg_tensor(f"model{mi}.{pn}", p)
+            B.model_syms.append(None)
+        elif m["kind"] == "poly2":
+            mod = Poly2(m["init"], m.get("order", "xt"))
             ids = reg_tensor(f"model{mi}.coef", mod.coef)
             B.model_syms.append(lambda x, t, ids=ids: Sym.par(ids[0]) + Sym.par(ids[1]) * x + Sym.par(ids[2]) * t + Sym.par(ids[3]) * x * t)
         elif m["kind"] == "poly":
@@ -316,7 +324,8 @@ def build(case):
 
         def __init__(self, sets, space=X):
             super().__init__(n_points=len(sets[0]))
-            self.sets = [torch.tensor([[float(Fraction(a))] for a in s], dtype=dt) for s in sets]
+            self.sets = [torch.tensor([[float(Fraction(v)) for v in a] if isinstance(a, (list, tuple)) else [float(Fraction(a))]
+                                       for a in s], dtype=dt) for s in sets]
             self.ncalls = 0
             self.space = space
 
@@ -405,6 +414,17 @@ def build(case):
                                                           track_gradients=c.get("track", True), **kw)
             else:
                 cond = tp.conditions.AdaptiveWeightsCondition(mod, sampler, fn, name=name, weight=w, **kw)
+        elif kind == "pinn2":
+            names, f = RESIDUALS["lin2"]
+            if c.get("lib_product"):
+                gx = tp.samplers.GridSampler(tp.domains.Interval(X, 0.0, 1.0), n_points=c["lib_product"][0])
+                gt = tp.samplers.GridSampler(tp.domains.Interval(T, 0.0, 1.0), n_points=c["lib_product"][1])
+                sampler = (gx * gt if c["order"] == "xt" else gt * gx).make_static()
+                sampler.sample_points()
+            else:
+                sampler = staticize(FixedSampler(c["sets"], space=(X * T if c["order"] == "xt" else T * X)), c)
+            cond = tp.conditions.PINNCondition(mod, sampler, make_fn(names, f, cc), name=name, weight=w,
+                                               track_gradients=c.get("track", True))
         elif kind == "pideeponet":
             h = mod._harness
             cond = tp.conditions.PIDeepONetCondition(mod, h["fset"], tp.samplers.GridSampler(h["Ix"], c["n"]).make_static(),
@@ -528,6 +548,17 @@ def cond_syms(case, B, c, where, ci):
     cc = tuple(Fraction(a) for a in c.get("c", ()))
     msym = B.model_syms[c["model"]] if c.get("model") is not None else None
     D = Sym.par(B.param_ids[c["param"]][0]) if c.get("param") is not None else None
+    if kind == "pinn2":
+        out = []
+        for s_ in set_sequence(c, c["sets"]):
+            terms = []
+            for row in s_:
+                a, b = Sym.lift(Fraction(row[0])), Sym.lift(Fraction(row[1]))
+                x, t = (a, b) if c["order"] == "xt" else (b, a)       # the rows are written in delivery order
+                r = msym(x, t) - x * cc[0] - t * cc[1]
+                terms.append(r * r)
+            out.append(mean_of(terms))
+        return out
     if kind == "periodic":
         names, f = RESIDUALS[c["res"]]
         lb, ub = Sym.lift(Fraction(c["lb"])), Sym.lift(Fraction(c["ub"]))
@@ -863,12 +894,30 @@ def gen_cond(rng, case, where, allow_probe=True):
     return c
 
 
+def add_pinn2(rng, case, mi, k):
+    """PINN conditions on a two-variable model; the sampler delivers the variables in the order `order`,
+    which may differ from the order in which the model declares them"""
+    for _ in range(k):
+        npts, nsets = rng.choice([1, 2, 3]), rng.choice([1, 1, 2])
+        c = dict(kind="pinn2", model=mi, weight=rng.choice(["1/2", "3/4", "3/2", "1", "5/4"]), order=rng.choice(["xt", "tx"]),
+                 sets=[[[dy(rng, -1, 1, 8), dy(rng, -1, 1, 8)] for _ in range(npts)] for _ in range(nsets)],
+                 static=rng.random() < 0.4, c=[dy(rng, -1, 1, 4), dy(rng, -1, 1, 4)], track=rng.random() < 0.7)
+        if c["static"]:
+            c["static_interval"] = rng.choice([None, None, 2])
+        if case["channel"] == "torch" and rng.random() < 0.5:
+            c["lib_product"] = [rng.choice([1, 2, 3]), rng.choice([1, 2])]
+            c["static"], c["static_interval"] = True, None
+            c["sets"] = c["sets"][:1]
+        case["train"].append(c)
+
+
 def add_periodic2(rng, case):
     """a two-variable model u(x, t) with PeriodicConditions in x whose non-periodic sampler runs over t
     (static never resampling / static with a finite interval / not static), with and without data functions
     that depend on the periodic variable and are read at both ends"""
-    case["models"].append(dict(kind="poly2", init=[dy(rng, -1, 1) for _ in range(4)]))
+    case["models"].append(dict(kind="poly2", init=[dy(rng, -1, 1) for _ in range(4)], order=rng.choice(["xt", "tx"])))
     mi = len(case["models"]) - 1
+    add_pinn2(rng, case, mi, rng.choice([0, 1, 1, 2]))
     for _ in range(rng.choice([1, 1, 2])):
         nsets = rng.choice([1, 2])
         c = dict(kind="periodic", model=mi, weight=rng.choice(["1/2", "3/4", "3/2", "7/4", "1", "-1/4"]),
@@ -938,6 +987,10 @@ def gen_case_torch(rng, Nmax=8):
     case["val"] = [cond("v") for _ in range(rng.choice([0, 0, 1, 2]))]
     if rng.random() < 0.3:
         add_periodic2(rng, case)
+    if rng.random() < 0.35:
+        # a library network on two variables, declared in one order, fed in either order
+        case["models"].append(dict(kind="fcn2", seed=rng.randrange(10 ** 6), hidden=[rng.choice([2, 3])], order=rng.choice(["xt", "tx"])))
+        add_pinn2(rng, case, len(case["models"]) - 1, rng.choice([1, 2]))
     if rng.random() < 0.35:
         # a DeepONet with its own conditions (they use the iteration argument to cache the branch evaluation)
         case["models"].append(dict(kind="deeponet", seed=rng.randrange(10 ** 6), n_fn=rng.choice([2, 3]), n_disc=rng.choice([3, 4])))
@@ -1323,6 +1376,10 @@ def run(ctx, rep, cases=None):
                 rep.count("datafn:" + ("UserFunction" if c.get("f_wrapped") else "callable"))
             elif c.get("static_interval"):
                 rep.count("static-interval-without-datafn")
+            if c.get("model") is not None and case["models"][c["model"]]["kind"] in ("poly2", "fcn2"):
+                declared = case["models"][c["model"]].get("order", "xt")
+                delivered = c.get("order", "xt")           # periodic conditions deliver (x, t)
+                rep.count("two-variable-model:" + ("points-reordered" if declared != delivered else "declared-order"))
         for c in case["val"]:
             rep.count("val:" + c["kind"])
         rep.count("validation:" + ("none" if not case["val"] else f"every{case.get('val_every')}" + ("+sanity" if case.get("sanity") else "")))
